@@ -24,21 +24,42 @@ class RaceAdapter:
     def reset(self, st):
         self.writers = sorted(st['pc'])
         self.cache = {}
-        self.cnt = {'cb': 0, 'ecb': 0}
+        self.cnt = {'cb': 0, 'ecb': 0, 'softsig': 0, 'tcb': 0}
         self.hist = []
         self.saw = {w: False for w in self.writers}
+        self.look = {w: 0 for w in self.writers}
         self.pc = {w: 'idle' for w in self.writers}
         bp.job_counter = iter(range(1, 100))
         ad = self
 
+        def park():
+            # user code: the callback stays where it is until the schedule lets it return
+            w = ad._who()
+            ad._note()
+            if w is not None:
+                ad.cos[w].yield_('incb')
+
         def cb(v):
             ad.cnt['cb'] += 1
+            park()
 
         def ecb(e):
             ad.cnt['ecb'] += 1
-        job = bp.ApplyResult(self.cache, cb, error_callback=ecb, timeout=1)
+            park()
+
+        def tcb(soft=False, timeout=None):
+            if soft:
+                ad.cnt['tcb'] += 1
+
+        def kill(pid, sig):
+            if pid == 4242 and sig == bp.SIG_SOFT_TIMEOUT:
+                ad.cnt['softsig'] += 1
+        bp._kill = kill
+        job = bp.ApplyResult(self.cache, cb, error_callback=ecb, timeout_callback=tcb,
+                             soft_timeout=1, timeout=1)
         job._ack(None, 1000.0, 4242, None)
         self.job = job
+        self._last = (False, id(None))
         self.cos = {}
         cls = job.__class__
 
@@ -51,20 +72,32 @@ class RaceAdapter:
                 if w is not None and ad.pc[w] == 'idle':
                     if w != 'result':
                         ad.saw[w] = not r
+                    ad.look[w] = ad.cnt['cb'] + ad.cnt['ecb']
                     ad.cos[w].yield_('checked')
                 return r
 
             def _set(s, i, obj):
-                before = (s._event.is_set(), s.__dict__.get('_value'))
                 cls._set(s, i, obj)
-                after = (s._event.is_set(), s.__dict__.get('_value'))
-                if after != before:
-                    ad.hist.append(ad._kind())
+                ad._note()
         Watched.__name__ = cls.__name__
         job.__class__ = Watched
-        self.th = bp.TimeoutHandler([], self.cache, None, 1)
+
+        class _Proc:
+            pid = 4242
+            _name = 'w'
+        self.th = bp.TimeoutHandler([_Proc()], self.cache, None, 1)
+        self.th._trywaitkill = lambda worker: None      # (the hard branch's kill is Pool.tla's business)
         self.rh = bp.ResultHandler(None, None, self.cache, None, None, _Sem(),
                                    restart_state(0, 1), None, None, on_ready_counters={})
+
+    def _note(self):
+        """every outcome the job is given, as soon as it is observable"""
+        j = self.job
+        cur = (j._event.is_set(), id(j.__dict__.get('_value')))
+        if cur != self._last:
+            self._last = cur
+            if cur[0]:
+                self.hist.append(self._kind())
 
     def _who(self):
         cur = threading.current_thread()
@@ -90,6 +123,7 @@ class RaceAdapter:
             def run():
                 # the table look-up is the result handler's own look
                 self.saw['result'] = self.cache.get(job._job) is job
+                self.look['result'] = self.cnt['cb'] + self.cnt['ecb']
                 self.rh.state_handlers[bp.READY](job._job, None, (True, 'value'), None)
                 if self.pc['result'] == 'idle':       # (the job had left the table: no ready() look)
                     self.cos['result'].yield_('checked')
@@ -98,6 +132,11 @@ class RaceAdapter:
                 self.th.on_hard_timeout(job)
                 if self.pc['timeout'] == 'idle':
                     self.cos['timeout'].yield_('checked')
+        elif w == 'soft':
+            def run():
+                self.th.on_soft_timeout(job)
+                if self.pc['soft'] == 'idle':
+                    self.cos['soft'].yield_('checked')
         else:
             def run():
                 # _join_exited_workers: `if not job.ready() and job._worker_lost: ... mark_as_worker_lost`
@@ -114,15 +153,19 @@ class RaceAdapter:
                 raise co.crash
             self.pc[w] = 'checked'
         else:
+            # Set / SoftAct: up to the entry of a user callback or the end of the call; Finish: the rest
             co = self.cos[w]
             if not co.finished:
                 co.resume()
             if co.crash is not None:
                 raise co.crash
-            self.pc[w] = 'done'
+            self.pc[w] = 'done' if co.finished else 'incb'
 
     def project(self):
-        return {'pc': dict(self.pc), 'saw': dict(self.saw), 'out': self._kind(),
+        holder = [w for w in self.writers if self.pc[w] == 'incb']
+        return {'pc': dict(self.pc), 'saw': dict(self.saw), 'look': dict(self.look),
+                'mutex': (holder[0] if holder else 'held') if self.job._mutex.locked() else 'none',
+                'softsig': self.cnt['softsig'], 'tcb': self.cnt['tcb'], 'out': self._kind(),
                 'incache': self.cache.get(self.job._job) is self.job,
                 'cb': self.cnt['cb'], 'ecb': self.cnt['ecb'], 'hist': list(self.hist)}
 
